@@ -614,6 +614,47 @@ func runC05(c *ctx) {
 		}
 	}
 
+	// round 11: a text literal under a size declaration counts every character it is written with - blanks at its end,
+	// written inside the quotes, as a separate quoted piece or as character codes, are characters like any other: a
+	// literal that is too long by blanks only is refused, one that fits keeps them
+	{
+		type form struct {
+			decl string
+			max  int
+		}
+		for _, n := range []int{0, 1, 2, 5, 31} {
+			for _, f := range []form{{fmt.Sprintf("[%d]", n), n}, {fmt.Sprintf("[..%d]", n), n}, {fmt.Sprintf("[0..%d]", n), n}, {fmt.Sprintf("[%d..%d]", n, n), n}} {
+				base := strings.Repeat("ab", n)[:n]
+				for k := 1; k <= 3; k++ {
+					pad := strings.Repeat(" ", k)
+					lits := []string{
+						fmt.Sprintf("%q", base+pad),
+						fmt.Sprintf("%q %q", base, pad),
+						fmt.Sprintf("%q%s", base, strings.Repeat(" 0x20", k)),
+						fmt.Sprintf("%q%s", base, strings.Repeat(" 32", k)),
+					}
+					if n == 0 {
+						lits = []string{fmt.Sprintf("%q", pad), strings.TrimSpace(strings.Repeat(" 0x20", k)), strings.TrimSpace(strings.Repeat(" 32", k))}
+					}
+					for li, lit := range lits {
+						for _, wrap := range []string{"S1F1 W H->E\n<A%s %s> .", "S1F1 W H->E\n<L <U1 1> <A%s %s>> ."} {
+							c.Class("sized-text-too-long-by-blanks-only")
+							c05Eval(c, c05Case{Class: "invalid", Text: fmt.Sprintf(wrap, f.decl, lit), Note: "too-long-by-blanks"})
+						}
+						// the same literal where it fits: every blank is kept
+						if li < 2 || n > 0 {
+							str := []byte(base + pad)
+							m := &ref.Msg{Stream: 1, Function: 1, W: 1, Dir: "H->E", Session: -1, Item: &ref.Item{Kind: ref.A, Str: str}}
+							c.Class("sized-text-with-blanks-that-fit")
+							c05Eval(c, c05Case{Class: "valid", Text: fmt.Sprintf("S1F1 W H->E\n<A[%d] %s> .", len(str), lit), Msg: m, Note: "blanks-kept"})
+							c05Eval(c, c05Case{Class: "valid", Text: fmt.Sprintf("S1F1 W H->E\n<A[..%d] %s> .", len(str)+1, lit), Msg: m, Note: "blanks-kept"})
+						}
+					}
+				}
+			}
+		}
+	}
+
 	// unspecified forms: an error, or one of the plausible readings
 	type unspec struct {
 		kind  ref.Kind
@@ -708,7 +749,7 @@ func runC05(c *ctx) {
 		c.Class("backslash-sequences")
 		c05Eval(c, c05Case{Class: "valid", Text: text, Msg: m, Note: "backslash-not-an-escape"})
 	}
-	c.Required = []string{"deep-nest-with-elements-around-child-lists", "class/valid", "class/invalid", "class/unspecified", "float-near-midpoint", "float-long-plain-decimal", "repeated-headers-with-different-literals", "systematic-position", "boundary-in-every-base", "backslash-sequences"}
+	c.Required = []string{"sized-text-too-long-by-blanks-only", "sized-text-with-blanks-that-fit", "deep-nest-with-elements-around-child-lists", "class/valid", "class/invalid", "class/unspecified", "float-near-midpoint", "float-long-plain-decimal", "repeated-headers-with-different-literals", "systematic-position", "boundary-in-every-base", "backslash-sequences"}
 }
 
 func mathBits(v float64) uint64 { return ref.Float64Bits(v) }
